@@ -121,7 +121,7 @@ def run_sync(spec, gs, pkg):
     if spec.get("no_call"):
         return rec
     kw = build_call(spec, False)
-    kw.setdefault("timeout", spec.get("deadline", 20.0))   # a wrong arity must fail, not hang
+    kw.setdefault("timeout", spec.get("deadline", 8.0))   # a wrong arity must fail, not hang
     rec["stage"] = "call"
     res = fn(**kw)
     if spec.get("consume", "value") == "stream":
@@ -144,7 +144,7 @@ async def run_async(spec, gs, pkg):
     if spec.get("no_call"):
         return rec
     kw = build_call(spec, True)
-    kw.setdefault("timeout", spec.get("deadline", 20.0))
+    kw.setdefault("timeout", spec.get("deadline", 8.0))
     rec["stage"] = "call"
     res = fn(**kw)
     if inspect.isawaitable(res):
@@ -178,7 +178,7 @@ def main():
         spec["_rec"] = rec
         try:
             if spec["transport"] == "grpc_asyncio":
-                asyncio.run(asyncio.wait_for(run_async(spec, gs, payload["package"]), spec.get("timeout", 20)))
+                asyncio.run(asyncio.wait_for(run_async(spec, gs, payload["package"]), spec.get("timeout", 12)))
             else:
                 run_sync(spec, gs, payload["package"])
         except BaseException as e:  # noqa  (SyntaxError/ImportError of the emitted package included)
